@@ -1,4 +1,4 @@
 SPECIFICATION Spec
-CONSTANTS Peers = {s1}  Probe = probe  LogInAcceptLoop = FALSE
+CONSTANTS Peers = {s1}  Probe = probe  LogInAcceptLoop = FALSE  HeadFromWaitStart = FALSE
 INVARIANTS NotClosedBefore SlowOriginNeverCloses ClosedAtLimit LoopNeverBlocks ProbeNotClosed
 CHECK_DEADLOCK FALSE
